@@ -194,9 +194,9 @@ pub fn exec(sock: &Path, op: &str, rq: &Value, nth: u64) -> Option<Value> {
                 headers.push(("Transfer-Encoding", b"chunked".to_vec()));
             }
             let r = req(sock, "POST", &target, &headers, &body);
-            if r.status == 200 {
+            if (200..=299).contains(&r.status) {
                 match serde_json::from_slice::<Value>(&r.body) {
-                    Ok(f) => json!({"ok": true, "frame": f, "status": 200}),
+                    Ok(f) => json!({"ok": true, "frame": f, "status": r.status}),
                     Err(_) => json!({"ok": false, "err": "unparsable body", "status": -3}),
                 }
             } else {
@@ -206,11 +206,11 @@ pub fn exec(sock: &Path, op: &str, rq: &Value, nth: u64) -> Option<Value> {
         "import" => {
             let body = serde_json::to_vec(&rq["frame"]).unwrap();
             let r = req(sock, "POST", "/import", &[], &body);
-            json!({"ok": r.status == 200, "status": r.status, "err": String::from_utf8_lossy(&r.body)})
+            json!({"ok": (200..=299).contains(&r.status), "status": r.status, "err": String::from_utf8_lossy(&r.body)})
         }
         "remove" => {
             let r = req(sock, "DELETE", &format!("/{}", rq["id"].as_str().unwrap()), &[], &[]);
-            json!({"ok": r.status == 204, "status": r.status})
+            json!({"ok": (200..=299).contains(&r.status), "status": r.status})
         }
         "read" => {
             let mut q = vec![];
@@ -249,7 +249,7 @@ pub fn exec(sock: &Path, op: &str, rq: &Value, nth: u64) -> Option<Value> {
         "get" => {
             let r = req(sock, "GET", &format!("/{}", rq["id"].as_str().unwrap()), &[], &[]);
             match r.status {
-                200 => json!({"frame": serde_json::from_slice::<Value>(&r.body).unwrap_or(json!({"unparsable": true})), "status": 200}),
+                s @ 200..=299 => json!({"frame": serde_json::from_slice::<Value>(&r.body).unwrap_or(json!({"unparsable": true})), "status": s}),
                 s => json!({"frame": null, "status": s}),
             }
         }
@@ -258,7 +258,7 @@ pub fn exec(sock: &Path, op: &str, rq: &Value, nth: u64) -> Option<Value> {
             let q = if c == "0000000000000000000000000" && nth % 2 == 1 { String::new() } else { format!("?context={c}") };
             let r = req(sock, "GET", &format!("/head/{}{}", rq["topic"].as_str().unwrap_or(""), q), &[], &[]);
             match r.status {
-                200 => json!({"frame": serde_json::from_slice::<Value>(&r.body).unwrap_or(json!({"unparsable": true})), "status": 200}),
+                s @ 200..=299 => json!({"frame": serde_json::from_slice::<Value>(&r.body).unwrap_or(json!({"unparsable": true})), "status": s}),
                 s => json!({"frame": null, "status": s}),
             }
         }
